@@ -89,6 +89,39 @@ CHECKS = {
             "and evo's check() at the end must agree.",
             "repeated propagating transforms are bounded to a cumulated rounding amplification of 1e5",
             "DESIGN.md §3 C08"),
+    "C06": ("exploration", "bit-pattern comparison of writer input vs reader output on real round trips",
+            "TUM, KITTI, result archives (with/without trajectories), DataFrame conversion and ROS1 "
+            "bag export are exercised with values needing 17 digits, 1e-300..1e300, epoch "
+            "nanosecond stamps, -0.0, subnormals, unicode info, via str/Path/handle; every value "
+            "is compared as a uint64 bit pattern; bag header stamps are read with rosbags' own "
+            "reader and compared exactly (rational arithmetic) with the 1 ns bound.",
+            "rosbags decodes its own headers correctly", "DESIGN.md §3 C06"),
+    "C07": ("exploration", "evo reader vs independent convention parser; evo writer bytes vs independent parser; malformed-file classifier",
+            "Well-formed files are generated by an own writer (comments anywhere, BOM, CRLF, "
+            "literal spellings) and evo's objects are compared slot by slot with an independent "
+            "parse; evo's written bytes are parsed independently; every malformed class is placed "
+            "at every row/column of small files for the three text formats and must raise "
+            "FileInterfaceException; valid/invalid transforms in npy/txt/json.",
+            "float() correctly rounded; out-of-class spellings not generated", "DESIGN.md §3 C07"),
+    "C13": ("exploration", "runtime contract on merge_results vs own merge model; CSV of real evo_res runs vs stored statistics",
+            "merge_results is called on 1..8 generated results (equal/unequal/mixed/empty lengths, "
+            "differing keys, per-result key insertion order) with deep pre-snapshots; evo_res is "
+            "run in-process on generated and real evo_ape archives and the CSV is parsed with an "
+            "own reader and compared cell by cell with the archives read by an own zip reader.",
+            "mixed-length case accepts per-array mean or global concatenation", "DESIGN.md §3 C13"),
+    "C15": ("exploration", "exported files of real evo_traj runs vs documented-order shadow pipeline",
+            "evo_traj runs in-process on generated file sets under random option combinations "
+            "(thorough: plus every option subset up to size 3); every exported .tum/.kitti file, "
+            "including the reference's, is parsed independently and compared with the shadow "
+            "pipeline in the documented order; the inverse transformation is numpy's matrix inverse.",
+            "threshold-ambiguous cases counted and skipped; projected headings adopted after C14 clauses",
+            "DESIGN.md §3 C15"),
+    "C16": ("exploration", "deep-snapshot argument-immutability monitor + derive/mutate/re-inspect independence histories",
+            "34 public computing/writing/plotting functions are called on fresh arguments with "
+            "bit-level snapshots before/after; the full matrix {10 derivations} x {13 mutators} x "
+            "{2 directions} x {2 storage modes} x {caches materialised or not} is executed and the "
+            "untouched side is compared with a twin built from the same arrays.",
+            "lazily created caches may appear; existing fields must stay bit-identical", "DESIGN.md §3 C16"),
     "C09": ("exploration", "runtime law monitors on the real Lie helpers (seeded hostile generators)",
             "Every group law of the statement is evaluated by a monitor on the real helpers for "
             "thousands of generated rotations/poses/similarities per run incl. angles within 1e-16 "
